@@ -1,26 +1,458 @@
-"""Segment-string operations (decided structurally; used by the printer/parser checks).
-Filled in by the C17/C03 work; until then every operation that would have to look inside
-a ``dec(n)`` hole is Unsupported (=> undecided, never guessed)."""
+"""Segment strings: a string made of literal pieces and *holes* -- the decimal rendering of a symbolic
+integer (``str(n)`` / an f-string field).  Every string operation the repository's parser and printers use
+is decided *structurally*: it may look at literal characters and at segment boundaries, it may fork on the
+sign of a hole, but it never guesses the digits of a hole -- any operation whose result would depend on
+them raises ``Unsupported`` (=> the obligation is undecided, never wrong).
+
+Assumed lemma about the builtins (validated by the bounded cross-checks):  for every integer n,
+``str(n)`` is an optional '-' followed by one or more decimal digits, and ``int(str(n)) == n``.
+
+A hole is ('dec', SInt) -- signed, not yet split -- or ('udec', term) -- a non-negative integer term, digits only.
+Lengths of holes are terms ``DLEN(m) >= 1`` of an uninterpreted function, so positions inside a segment
+string are ordinary (symbolic) integers and the code's index arithmetic is executed as written.
+"""
 from __future__ import annotations
 
-from .values import Unsupported
+import z3
+
+from .values import SBool, SInt, Sym, Unsupported, lift_int, mk_bool, mk_int
+
+DLEN = z3.Function("declen", z3.IntSort(), z3.IntSort())
+DIGITS = "0123456789"
 
 
-def contains(it, s, x):
-    raise Unsupported("SegStr.__contains__")
+def _M():
+    from . import models
+    return models
 
 
-def getitem(it, s, k):
-    raise Unsupported("SegStr.__getitem__")
+def _exc(e):
+    from .interp import PyExc
+    return PyExc(e)
+
+
+class DigitChar:
+    """one character taken from inside a hole: some decimal digit (which one is unknown)"""
+
+    def __repr__(self):
+        return "<digit>"
+
+
+def mk(parts):
+    M = _M()
+    s = M.SegStr(parts)
+    if all(isinstance(p, str) for p in s.parts):
+        return "".join(s.parts)
+    return s
+
+
+def parts_of(v):
+    M = _M()
+    if isinstance(v, str):
+        return [v] if v else []
+    if isinstance(v, M.SegStr):
+        return list(v.parts)
+    raise Unsupported(f"not a string: {v!r}")
+
+
+def normalise(it, s):
+    """split every signed hole by the sign of its value (forks): dec(n) -> '-' udec(-n) | udec(n)"""
+    out = []
+    for p in parts_of(s):
+        if isinstance(p, tuple) and p[0] == "dec":
+            n = p[1]
+            t = lift_int(n)
+            if isinstance(n, int):
+                out.append(str(n))
+            elif it.decide(t < 0):
+                out.append("-")
+                out.append(("udec", -t))
+                it.pc.append(DLEN(-t) >= 1)
+            else:
+                out.append(("udec", t))
+                it.pc.append(DLEN(t) >= 1)
+        else:
+            out.append(p)
+    M = _M()
+    return M.SegStr(out).parts          # merged literals
+
+
+def plen(p):
+    return len(p) if isinstance(p, str) else DLEN(p[1])
 
 
 def length(it, s):
-    raise Unsupported("len(SegStr)")
+    ps = normalise(it, s)
+    t = z3.IntVal(0)
+    for p in ps:
+        t = t + plen(p)
+    return mk_int(t)
+
+
+def _cums(ps):
+    out = [z3.IntVal(0)]
+    for p in ps:
+        out.append(out[-1] + plen(p))
+    return out
+
+
+def _concrete(it, t):
+    """numeral value of term t if it is determined on this path, else None"""
+    t = z3.simplify(t)
+    if z3.is_int_value(t):
+        return t.as_long()
+    s = it.solver()
+    if s.check() != z3.sat:
+        return None
+    v = s.model().eval(t, model_completion=True)
+    if s.check(t != v) == z3.unsat:
+        return v.as_long()
+    return None
+
+
+def locate(it, ps, pos):
+    """pos (int | SInt) -> (part index k, offset o) with pos == cum[k] + o, 0 <= o <= len(part k) and o inside a
+    literal part or at a boundary.  Python clamping of slice bounds is handled by the callers."""
+    cums = _cums(ps)
+    pt = lift_int(pos)
+    for k in range(len(ps) + 1):
+        d = _concrete(it, pt - cums[k])
+        if d is None:
+            continue
+        if k == len(ps):
+            if d == 0:
+                return k, 0
+            continue
+        p = ps[k]
+        if isinstance(p, str):
+            if 0 <= d <= len(p):
+                return k, d
+        else:
+            if d == 0:
+                return k, 0
+    raise Unsupported("position inside a segment string cannot be located structurally")
+
+
+def _cut(ps, k, o):
+    """split the part list at (k, o) -> (left parts, right parts)"""
+    if k >= len(ps):
+        return list(ps), []
+    p = ps[k]
+    if isinstance(p, str):
+        return list(ps[:k]) + ([p[:o]] if o else []), ([p[o:]] if o < len(p) else []) + list(ps[k + 1:])
+    return list(ps[:k]), list(ps[k:])
+
+
+def getitem(it, s, key):
+    ps = normalise(it, s)
+    if isinstance(key, slice):
+        if key.step is not None:
+            raise Unsupported("stepped slice of a segment string")
+        total = length(it, mk(ps))
+        lo, hi = key.start, key.stop
+        left = ps
+        if hi is not None:
+            hi = _clamp(it, hi, total)
+            k, o = locate(it, ps, hi)
+            left, _ = _cut(ps, k, o)
+        if lo is not None:
+            lo = _clamp(it, lo, total)
+            if hi is not None and it.truth(_M().order(it, __import__("ast").Gt(), lo, hi)):
+                return ""
+            k, o = locate(it, ps, lo)
+            l2, r2 = _cut(ps, k, o)
+            if hi is None:
+                return mk(r2)
+            # remove the first len(l2-parts) from ``left``
+            return mk(_drop_prefix(it, left, l2))
+        return mk(left)
+    # single index
+    if isinstance(key, Sym):
+        raise Unsupported("symbolic index into a segment string")
+    if not ps:
+        raise _exc(IndexError("string index out of range"))
+    if key < 0:
+        # from the end
+        rem = -key
+        for p in reversed(ps):
+            if isinstance(p, str):
+                if rem <= len(p):
+                    return p[len(p) - rem]
+                rem -= len(p)
+            else:
+                if rem == 1:
+                    return DigitChar()
+                raise Unsupported("index reaches into a hole from the end")
+        raise _exc(IndexError("string index out of range"))
+    rem = key
+    for p in ps:
+        if isinstance(p, str):
+            if rem < len(p):
+                return p[rem]
+            rem -= len(p)
+        else:
+            if rem == 0:
+                return DigitChar()
+            raise Unsupported("index past the first character of a hole")
+    raise _exc(IndexError("string index out of range"))
+
+
+def _drop_prefix(it, ps, prefix):
+    ps = list(ps)
+    for q in prefix:
+        if not ps:
+            raise Unsupported("slice bounds")
+        p = ps[0]
+        if isinstance(q, str) and isinstance(p, str) and p.startswith(q):
+            rest = p[len(q):]
+            ps = ([rest] if rest else []) + ps[1:]
+        elif not isinstance(q, str) and not isinstance(p, str) and z3.eq(q[1], p[1]):
+            ps = ps[1:]
+        else:
+            raise Unsupported("slice bounds")
+    return ps
+
+
+def _clamp(it, v, total):
+    M = _M()
+    v = M._fold_opt(it, v)
+    if isinstance(v, int):
+        if v >= 0:
+            # may exceed the length: clamp if provably so
+            if it.truth(M.order(it, __import__("ast").Gt(), v, total)):
+                return total
+            return v
+        r = M.binop(it, __import__("ast").Add(), total, v) if isinstance(total, Sym) else total + v
+        if it.truth(M.order(it, __import__("ast").Lt(), r, 0)):
+            return 0
+        return r
+    if it.truth(M.order(it, __import__("ast").Lt(), v, 0)):
+        raise Unsupported("negative symbolic slice bound")
+    if it.truth(M.order(it, __import__("ast").Gt(), v, total)):
+        return total
+    return v
+
+
+def _needle_ok(needle):
+    if not isinstance(needle, str):
+        raise Unsupported(f"needle {needle!r}")
+    if any(ch in DIGITS for ch in needle):
+        raise Unsupported("search for a digit in a segment string")
+
+
+def find(it, s, needle, *a):
+    if a:
+        raise Unsupported("find with start/end")
+    _needle_ok(needle)
+    ps = normalise(it, s)
+    cums = _cums(ps)
+    for k, p in enumerate(ps):
+        if isinstance(p, str):
+            j = p.find(needle)
+            if j != -1:
+                return mk_int(cums[k] + j)
+    return -1
+
+
+def contains(it, s, needle):
+    if isinstance(needle, DigitChar):
+        raise Unsupported("digit in segment string")
+    _needle_ok(needle)
+    if needle == "":
+        return True
+    ps = normalise(it, s)
+    return any(isinstance(p, str) and needle in p for p in ps)
+
+
+def count(it, s, needle):
+    _needle_ok(needle)
+    ps = normalise(it, s)
+    return sum(p.count(needle) for p in ps if isinstance(p, str))
+
+
+def startswith(it, s, prefix):
+    if isinstance(prefix, tuple):
+        return any(startswith(it, s, x) for x in prefix)
+    ps = normalise(it, s)
+    if prefix == "":
+        return True
+    if not ps:
+        return False
+    p = ps[0]
+    if isinstance(p, str):
+        if len(p) >= len(prefix):
+            return p.startswith(prefix)
+        if not prefix.startswith(p):
+            return False
+        if all(ch not in DIGITS for ch in prefix[len(p):]):
+            return False                 # next part is a hole (digits)
+        raise Unsupported("prefix test reaches into a hole")
+    if prefix[0] in DIGITS:
+        raise Unsupported("prefix test on the digits of a hole")
+    return False
+
+
+def endswith(it, s, suffix):
+    if isinstance(suffix, tuple):
+        return any(endswith(it, s, x) for x in suffix)
+    ps = normalise(it, s)
+    if suffix == "":
+        return True
+    if not ps:
+        return False
+    p = ps[-1]
+    if isinstance(p, str):
+        if len(p) >= len(suffix):
+            return p.endswith(suffix)
+        if not suffix.endswith(p):
+            return False
+        if all(ch not in DIGITS for ch in suffix[:-len(p)]):
+            return False
+        raise Unsupported("suffix test reaches into a hole")
+    if suffix[-1] in DIGITS:
+        raise Unsupported("suffix test on the digits of a hole")
+    return False
+
+
+def strip(it, s, chars=None, left=True, right=True):
+    ps = normalise(it, s)
+    if chars is None:
+        cs = " \t\n\r\x0b\x0c"
+    else:
+        cs = chars
+    if any(ch in DIGITS for ch in cs):
+        if any(not isinstance(p, str) for p in ps[:1] + ps[-1:]):
+            raise Unsupported("strip of digit characters next to a hole")
+    ps = list(ps)
+    if left:
+        while ps and isinstance(ps[0], str):
+            t = ps[0].lstrip(cs)
+            if t:
+                ps[0] = t
+                break
+            ps.pop(0)
+    if right:
+        while ps and isinstance(ps[-1], str):
+            t = ps[-1].rstrip(cs)
+            if t:
+                ps[-1] = t
+                break
+            ps.pop()
+    return mk(ps)
+
+
+def split(it, s, sep=None, maxsplit=-1):
+    if sep is None:
+        raise Unsupported("whitespace split of a segment string")
+    _needle_ok(sep)
+    if maxsplit != -1:
+        raise Unsupported("split with maxsplit")
+    ps = normalise(it, s)
+    out = [[]]
+    for p in ps:
+        if isinstance(p, str):
+            bits = p.split(sep)
+            out[-1].append(bits[0])
+            for b in bits[1:]:
+                out.append([b])
+        else:
+            out[-1].append(p)
+    return [mk(x) for x in out]
+
+
+def lower(it, s):
+    return mk([p.lower() if isinstance(p, str) else p for p in parts_of(s)])
+
+
+def upper(it, s):
+    return mk([p.upper() if isinstance(p, str) else p for p in parts_of(s)])
+
+
+def replace(it, s, old, new, *a):
+    if a:
+        raise Unsupported("replace with count")
+    _needle_ok(old)
+    M = _M()
+    ps = normalise(it, s)
+    out = []
+    for p in ps:
+        if isinstance(p, str):
+            bits = p.split(old)
+            for j, b in enumerate(bits):
+                if j:
+                    out.extend(parts_of(new))
+                out.append(b)
+        else:
+            out.append(p)
+    return mk(out)
+
+
+def equal(it, a, b):
+    """equality of two strings at least one of which has holes"""
+    pa, pb = normalise(it, a), normalise(it, b)
+    # structural comparison: same shape and equal hole values => equal; different literal skeleton => different
+    if len(pa) == len(pb) and all((isinstance(x, str) and isinstance(y, str) and x == y) or
+                                  (not isinstance(x, str) and not isinstance(y, str)) for x, y in zip(pa, pb)):
+        conds = [x[1] == y[1] for x, y in zip(pa, pb) if not isinstance(x, str)]
+        return mk_bool(z3.And(conds)) if conds else True
+    # quick mismatch: one side is a literal without digits where the other has a hole, or non-digit skeletons differ
+    la = "".join(p if isinstance(p, str) else "\x00" for p in pa)
+    lb = "".join(p if isinstance(p, str) else "\x00" for p in pb)
+    ska = "".join(ch for ch in la if ch not in DIGITS and ch != "\x00")
+    skb = "".join(ch for ch in lb if ch not in DIGITS and ch != "\x00")
+    if ska != skb:
+        return False
+    if (not pa) != (not pb):
+        return False
+    raise Unsupported("equality of segment strings with different segmentation")
+
+
+class SegCharSet:
+    """set(<segment string>): the literal characters plus, if there is a hole, some non-empty set of digits"""
+
+    def __init__(self, chars, has_hole):
+        self.chars = set(chars)
+        self.has_hole = has_hole
+
+
+def charset(it, s):
+    ps = normalise(it, s)
+    return SegCharSet("".join(p for p in ps if isinstance(p, str)), any(not isinstance(p, str) for p in ps))
+
+
+def charset_le(it, cs, other, strict=False):
+    other = set(other)
+    if not cs.chars <= other:
+        return False
+    if cs.has_hole:
+        if not set(DIGITS) <= other:
+            raise Unsupported("subset test depends on the digits of a hole")
+        if strict:
+            if len(cs.chars | set(DIGITS)) < len(other):
+                return True
+            raise Unsupported("proper-subset test depends on the digits of a hole")
+        return True
+    return cs.chars < other if strict else True
 
 
 def to_int(it, s):
-    raise Unsupported("int(SegStr)")
+    ps = normalise(it, s)
+    if len(ps) == 1 and not isinstance(ps[0], str):
+        return mk_int(ps[0][1])
+    if len(ps) == 2 and ps[0] == "-" and not isinstance(ps[1], str):
+        return mk_int(-ps[1][1])
+    if len(ps) == 2 and ps[0] == "+" and not isinstance(ps[1], str):
+        return mk_int(ps[1][1])
+    if all(isinstance(p, str) for p in ps):
+        try:
+            return int("".join(ps))
+        except ValueError as e:
+            raise _exc(e)
+    lit = "".join(p for p in ps if isinstance(p, str))
+    if any(ch not in DIGITS + "-+ _" for ch in lit):
+        raise _exc(ValueError("invalid literal for int() with base 10"))
+    raise Unsupported("int() of literal digits adjacent to a hole")
 
 
 def iterate(it, s):
-    raise Unsupported("iter(SegStr)")
+    raise Unsupported("iteration over the characters of a segment string")
